@@ -254,6 +254,47 @@ def c21_n_pair_kinds(skind: int, sp: int, dkind: int, with_opt: bool) -> bool:
         return judge_pair(r, script, k, log)
 
 
+TS_POOL4 = ["1.2.840.10008.1.2", "1.2.840.10008.1.2.1", "1.2.840.10008.1.2.1.99", "1.2.840.10008.1.2.2"]
+TS_FLAGS = [(True, True, False), (False, True, False), (False, True, True), (False, False, False)]   # PS3.5 Annex A
+ENC_KERNELS = ["find_qr", "find_relevant", "PrintManagement.N_CREATE", "PrintManagement.N_EVENT_REPORT", "PrintManagement.N_GET",
+               "PrintManagement.N_SET", "PrintManagement.N_ACTION"]
+
+
+@harness(
+    "C21", timeout=(100, 400), shards=_kshards(tier(ENC_KERNELS, ENC_KERNELS + [n for n in S.PAIR_KERNELS if n not in ENC_KERNELS])),
+    functions=["service_class:ServiceClass._c_find_scp", "service_class:ServiceClass._n_*_scp"], stubs=STUBS,
+    outside=OUTSIDE21,
+    bounds="the request's presentation context has transfer syntax Implicit VR LE / Explicit VR LE / Deflated Explicit VR LE / "
+           "Explicit VR BE (solver-enumerated); the handler supplies a valid data set with Pending (C-FIND) or Success (DIMSE-N): "
+           "every data set handed to the encoder is encoded with exactly the (implicit VR, little endian, deflated) flags of "
+           "that transfer syntax")
+def c21_reply_encoding(t: int) -> bool:
+    """
+    pre: 0 <= t <= 3
+    post: _ == True
+    """
+    k = S.KERNELS[shard("kernel", "PrintManagement.N_ACTION")]
+    if k.style == "find":
+        script = S.Script([S.SK_INT], [0xFF00], [S.DK_VALID])
+    else:
+        script = S.Script([S.SK_INT], [0x0000], [S.DK_VALID])
+    want = None
+    ts = None
+    for i in range(4):
+        if t == i:
+            ts, want = TS_POOL4[i], TS_FLAGS[i]
+    with S.scp_env() as log:
+        r = S.run_kernel(k.name, 21, 3, script, log, ts=ts)
+        if r.escaped is not None:
+            return False
+        if len(log.flags) < 1:
+            return False
+        for f in log.flags:
+            if (bool(f[0]), bool(f[1]), bool(f[2])) != want:
+                return False
+    return True
+
+
 def _drop_instance_uid(req):
     req.AffectedSOPInstanceUID = None
 
